@@ -223,7 +223,7 @@ inductive CallCase (w : World) (o f : Nat) (a : Args) (m : Mock) : Prop
       (heq : w.callFn o f a =
         (w.bookkeep o f e x m,
          (find (w.expMatches a) w.expOrder (m.active f)).2.flatMap (w.matchLog a) ++
-           ([Ev.ok w.reporter e] ++ (actionEvents e x a).1 ++ w.traceEv e a (actionEvents e x a).2 ++
+           ([Ev.ok w.okReporter e] ++ (actionEvents e x a).1 ++ w.traceEv e a (actionEvents e x a).2 ++
              [.result (actionEvents e x a).2])))
 
 theorem callFn_cases (w : World) (o f : Nat) (a : Args) (m : Mock) (hm : w.mocks o = some m)
